@@ -11,12 +11,23 @@ import (
 	"github.com/tetratelabs/wazero/internal/wasm"
 )
 
+// boundedSize returns how many elements (or bytes) to allocate up front for a vector whose
+// declared size was just decoded: at most one more than the bytes left to read. Every element
+// takes at least one byte, so decoding fails as soon as the input runs out, with the same error
+// as before, but without allocating memory out of proportion to the input.
+func boundedSize(r *bytes.Reader, size uint64) uint64 {
+	if remaining := uint64(r.Len()); size > remaining {
+		return remaining + 1
+	}
+	return size
+}
+
 func decodeValueTypes(r *bytes.Reader, num uint32) ([]wasm.ValueType, error) {
 	if num == 0 {
 		return nil, nil
 	}
 
-	ret := make([]wasm.ValueType, num)
+	ret := make([]wasm.ValueType, boundedSize(r, uint64(num)))
 	_, err := io.ReadFull(r, ret)
 	if err != nil {
 		return nil, err
@@ -45,7 +56,7 @@ func decodeUTF8(r *bytes.Reader, contextFormat string, contextArgs ...interface{
 		return "", uint32(sizeOfSize), nil
 	}
 
-	buf := make([]byte, size)
+	buf := make([]byte, boundedSize(r, uint64(size)))
 	if _, err = io.ReadFull(r, buf); err != nil {
 		return "", 0, fmt.Errorf("failed to read %s: %w", fmt.Sprintf(contextFormat, contextArgs...), err)
 	}
